@@ -23,6 +23,8 @@ func init() {
 	reg("C03", "C03.R5", "E2", "resume: seek to the minimum saved stream offset; PassEvent refuses exactly offset <= saved", 1, ruleResume)
 	reg("C03", "C03.R6", "E2", "what a restart loads is a completely written file: write -> fsync -> rename with error gating (same rule as C07.R1)", 2, ruleDurableRename)
 	reg("C03", "C03.R7", "E7", "what a restart loads is what was saved: writer tokens = reader tokens (same rule as C07.R5)", 1, ruleTokenAgreement)
+	reg("C03", "C03.R8", "E6", "the stream offsets handed over with each line are a fresh copy of that job's own committed offsets", 1, ruleLineOffsetsFresh)
+	reg("C03", "C03.R9", "E2", "what a restart loads holds one snapshot: the saver formats into an emptied buffer (same rule as C07.R8)", 1, ruleSnapshotBufferFresh)
 }
 
 // isJobOffsetsAddr: v is &job.offsets
@@ -676,4 +678,55 @@ func (c *Ctx) dynamicallyCallable(fn *ssa.Function) bool {
 		}
 	})
 	return found
+}
+
+// ruleLineOffsetsFresh: with every line the reader hands over the offsets its job has committed so far
+// per stream; the pipeline uses them to drop lines that were already delivered (offset below the
+// stream's committed offset). They must be this job's own offsets as of this round: a copy made from
+// Job.offsets — not a buffer that still holds the entries of another job, whose larger offsets would
+// make fresh lines look already delivered.
+func ruleLineOffsetsFresh(c *Ctx, r *Rule) {
+	s := c.fileReader()
+	if s.in == nil {
+		r.Unresolved("the file reader's In call")
+		return
+	}
+	no, ok := s.in.Common().Args[2].(*ssa.Call)
+	if !ok || no.Call.StaticCallee() == nil || no.Call.StaticCallee().Name() != "NewOffsets" || len(no.Call.Args) < 2 {
+		r.Unresolved("pipeline.NewOffsets at the In call")
+		return
+	}
+	r.Inst(1)
+	bad := ""
+	for _, leaf := range phiLeaves(stripConv(no.Call.Args[1])) {
+		leaf = stripConv(leaf)
+		okLeaf := false
+		switch x := leaf.(type) {
+		case *ssa.Call:
+			// job.offsets.Copy()
+			if f := x.Call.StaticCallee(); f != nil && f.Name() == "Copy" && len(x.Call.Args) == 1 {
+				if o, fl, _, okf := fieldOf(x.Call.Args[0]); okf && isField(o, fl, fileInPkg, "Job", "offsets") {
+					okLeaf = true
+				}
+				if isLoadOfField(x.Call.Args[0], fileInPkg, "Job", "offsets") {
+					okLeaf = true
+				}
+			}
+			// append(buf[:0], job.offsets...)
+			if app, isApp := isBuiltinCall(x, "append"); isApp && len(app.Call.Args) == 2 && isLoadOfField(stripConv(app.Call.Args[1]), fileInPkg, "Job", "offsets") {
+				if sl, isSl := stripConv(app.Call.Args[0]).(*ssa.Slice); isSl && sl.High != nil {
+					if k, isK := constInt(sl.High); isK && k == 0 {
+						okLeaf = true
+					}
+				}
+				if isNilConst(app.Call.Args[0]) {
+					okLeaf = true
+				}
+			}
+		}
+		if !okLeaf {
+			bad = c.path(leaf)
+		}
+	}
+	r.Ob(bad == "", "worker.work|line-offsets-are-a-fresh-copy", s.in.Pos(), "the per-stream offsets handed over with a line are a fresh copy of this job's committed offsets"+ifs(bad != "", "; found "+bad+" (a buffer kept between jobs still holds other files' stream offsets, and lines of a new file below them are dropped as already delivered)"))
 }
